@@ -169,7 +169,15 @@ BOUNDED_STANDINS = {
                  what='ListingPrettyPrinter._generate_bytecode_line_string: every length up to the bound x row widths 1..8, '
                       'real helper, rows decoded back to the bytes',
                  why='string building of unbounded length (concatenation, len tests, padding) is outside the subset',
-                 bound='max bytes per line')],
+                 bound='max bytes per line'),
+            dict(name='format-text-rendering', script='pyvc/native/bounded_c16_formats.py', quick=['33'], thorough=['64'],
+                 what='the text the four formats render (listing rows incl. continuation rows, hex dump, Intel HEX records, '
+                      'minhex): a fixed family of programs (data lengths around the row widths, .org gaps, a muted stretch, '
+                      '16- and 24-bit addresses) assembled by the real CLI, every format decoded back to an address-to-byte '
+                      'map; the four maps must be equal and agree with the image',
+                 why='string formatting of the rows and the intelhex library are outside the subset; the contracts reason '
+                     'about the token stream and trust its reading',
+                 bound='max data bytes per statement')],
 }
 
 
